@@ -64,6 +64,7 @@ func (m *Model) judgeLocalMintBurn(c *Call, v *Verdict, args [][]byte) {
 	suffix := string(token)
 	mint := c.Fn == vmcommon.BuiltInFunctionESDTLocalMint
 	v.Known, v.Side, v.Named = true, "sender", [][]byte{token}
+	v.Suffixes = []string{suffix}
 	acc := m.acc(c.Shard, c.Caller)
 	if mint {
 		m.roleCheck(v, c, token, vmcommon.ESDTRoleLocalMint)
@@ -91,6 +92,7 @@ func (m *Model) judgeBurn(c *Call, v *Verdict, args [][]byte) {
 	token, value := args[0], bigOf(args[1])
 	suffix := string(token)
 	v.Known, v.Side, v.Named = true, "sender", [][]byte{token}
+	v.Suffixes = []string{suffix}
 	acc := m.acc(c.Shard, c.Caller)
 	if value.Cmp(acc.bal(suffix)) > 0 {
 		v.fail(pC02, "ESDTBurn/overdraft", "burning %v exceeds the holding %v", value, acc.bal(suffix))
@@ -134,6 +136,7 @@ func (m *Model) judgeCreate(c *Call, v *Verdict, args [][]byte) {
 		meta.URIs = append(meta.URIs, cp(u))
 	}
 	suffix := suffixOf(token, nonce)
+	v.Suffixes = []string{suffix}
 	if m.IssuedAt[suffix] {
 		v.fail(pC07, "ESDTNFTCreate/nonce-reused", "nonce %d of token %q was issued before", nonce, token)
 	}
@@ -181,6 +184,7 @@ func (m *Model) judgeNFTOwnHolding(c *Call, v *Verdict, args [][]byte) {
 		return // no holding of that NFT: the statements say nothing about it succeeding
 	}
 	v.Known, v.Side, v.Named = true, "sender", [][]byte{token}
+	v.Suffixes = []string{suffix}
 	pausedCheck := func() {
 		m.flagChecks(v, c, c.Caller, token, suffix, c.Fn)
 	}
@@ -255,6 +259,7 @@ func (m *Model) judgeFreezeWipe(c *Call, v *Verdict, args [][]byte, dstLocal boo
 	token := args[0]
 	suffix := string(token)
 	v.Known, v.Side, v.Named = true, "system", [][]byte{token}
+	v.Suffixes = []string{suffix}
 	if !isESDTSC(c.Caller) || !dstLocal {
 		v.Apply = noEffect // anyone else changes no state
 		v.Labels = append(v.Labels, "unauthorised-system-call")
